@@ -56,9 +56,11 @@ Plans2b == { [id |-> 2000 + f, pools |-> <<SmallPlan(f), SmallPlan(6)>>, cancel 
 Plans1NC == {pl \in Plans1 : ~pl.cancel}
 Plans1C == {pl \in Plans1 : pl.cancel}
 \* quick tier: every fault without user cancel on the schedule-end shape, the clean run on the other shape
-QuickPlans1 == {pl \in Plans1NC : pl.pools[1].shape = "sched-end" \/ pl.pools[1].fault \in {"none", "agg-drop-on-cancel", "prov-at-the-very-end"}}
+QuickFaults == {"none", "prov-before-first-ammo", "prov-at-the-very-end", "agg-at-once", "agg-drop-on-cancel", "warmup-fails",
+                "newgun-later", "bind-first", "sched-shared", "sched-later", "panic-later", "not-closable"}
+QuickPlans1 == {pl \in Plans1NC : (pl.pools[1].shape = "sched-end" /\ pl.pools[1].fault \in QuickFaults) \/ pl.pools[1].fault = "none"}
 \* thorough tier: every plan without cancel + user cancel at any step for these faults
-CancelFaults == {"none", "prov-mid-run", "prov-at-the-very-end", "agg-drop-on-cancel", "sched-shared"}
+CancelFaults == {"none", "prov-at-the-very-end", "agg-drop-on-cancel", "sched-shared"}
 ThoroughPlans1 == Plans1NC \cup {pl \in Plans1C : pl.pools[1].fault \in CancelFaults /\ pl.pools[1].shape = "out-of-ammo"}
 \* liveness is checked on a representative subset (TLC's liveness checking is sequential)
 LiveFaults == {"none", "prov-at-the-very-end", "agg-drop-on-cancel", "sched-shared", "newgun-later", "bind-first",
@@ -99,10 +101,9 @@ PlansEK == {pl \in PlansE : LET f == CHOOSE g \in 1..NF : Faults[g].fault = pl.p
 \* a fault of every other component position with an own-context value
 QuickE == {pl \in PlansEK : ~pl.cancel /\ pl.pools[1].ek # "wrapped" /\
              (pl.pools[1].fault \in {"prov-at-the-very-end", "agg-drop-on-cancel"} \/
-              (pl.pools[1].ek \in {"deadline", "canceled"} /\
-               pl.pools[1].fault \in {"agg-at-once", "bind-first"}) \/
-              (pl.pools[1].ek = "deadline" /\ pl.pools[1].fault = "newgun-later"))}
-ThoroughE == {pl \in PlansEK : pl.pools[1].ek # "wrapped"}
+              (pl.pools[1].ek = "deadline" /\ pl.pools[1].fault = "agg-at-once") \/
+              (pl.pools[1].ek = "canceled" /\ pl.pools[1].fault = "bind-first"))}
+ThoroughE == {pl \in PlansEK : pl.pools[1].ek # "wrapped" /\ ~pl.cancel}
 LateDeadlinePlans == {pl \in PlansEK : ~pl.cancel /\ pl.pools[1].ek = "deadline" /\ pl.pools[1].fault \in {"prov-at-the-very-end", "agg-drop-on-cancel"}}
 AllPlans == PlansSC \cup PlansEK \cup Plans1 \cup Plans2 \cup Plans2b
 OnePlan == {pl \in Plans1 : pl.id = 1}
